@@ -1,6 +1,7 @@
 package c12
 
 import (
+	"crypto/sha1"
 	"errors"
 	"fmt"
 	"os"
@@ -20,6 +21,7 @@ import (
 	"github.com/gittuf/gittuf/pkg/gitstore"
 	"github.com/gittuf/gittuf/pkg/rsl"
 	"github.com/gittuf/gittuf/verif/evid"
+	"github.com/gittuf/gittuf/verif/gitback"
 	"github.com/gittuf/gittuf/verif/keys"
 	"github.com/gittuf/gittuf/verif/memstore"
 	"github.com/gittuf/gittuf/verif/world"
@@ -636,6 +638,17 @@ func faultSeam(ms *memstore.Store, w *mWorld, before obs, col *evid.Collector) (
 
 // ---- search ----
 
+// mine distributes work items over the shards. With several shards, shard 0
+// is reserved for the dedup cross-check (two extra searches) and takes no
+// work items, so that no shard is systematically the slowest.
+func mine(k int) bool {
+	i, n := evid.Shard()
+	if n == 1 {
+		return true
+	}
+	return i != 0 && k%(n-1) == i-1
+}
+
 type replay struct {
 	Lane  string   `json:"lane"`
 	Start string   `json:"start"`
@@ -706,19 +719,59 @@ func replayM(r replay, col *evid.Collector) {
 	}
 }
 
+var (
+	theT      *testing.T
+	confirmed = map[string]bool{}
+)
+
+// confirmOnGit runs a lane-M operation path on a real git repository (same
+// fixed clock and identity, hence the same object ids) and returns the
+// signature the oracle reports there, reading everything through git plumbing.
+func confirmOnGit(t *testing.T, start string, path []string) (string, error) {
+	rsl.ResetCacheForVerif()
+	defer rsl.ResetCacheForVerif()
+	gb := gitback.New(t, false)
+	defer os.RemoveAll(gb.Dir)
+	w := startOn(gb, start)
+	v := &gitView{gb: gb, commits: map[string]rawCommit{}}
+	var bk *backend
+	bk = &backend{st: gb, v: v, fork: func() (*backend, func()) { return bk, func() {} }} // last step: the push may be recorded in place
+	scratch := evid.New("C12-confirm")
+	o := observe(v)
+	for i, name := range path {
+		op := findOp(menuM(o, w, true), name)
+		if op == nil {
+			return "", fmt.Errorf("operation %s is not in the menu of the git-side state", name)
+		}
+		err := op.run(gb)
+		v.loaded = false
+		after := observe(v)
+		if i < len(path)-1 {
+			// intermediate steps were judged clean in lane M; only the ref/log part is cheap enough to repeat
+			if after.LogOK != "" {
+				return "", errors.New(after.LogOK)
+			}
+			o = after
+			continue
+		}
+		return judge(bk, w, o, after, *op, err, scratch, "M").sig, nil
+	}
+	return "", nil
+}
+
 // searchM explores one start state. keyFn decides which states are merged.
 // It returns the canonical keys reached per depth (for the dedup cross-check).
 func searchM(start string, depth int, thorough bool, exact bool, item *int, col *evid.Collector, quiet bool) []map[string]bool {
 	ms0 := memstore.New()
 	w := startOn(ms0, start)
 	root := mNode{ms: ms0, o: observe(memView{ms0})}
-	keyOf := func(n mNode) string {
+	keyOf := func(n mNode) [20]byte {
 		if exact {
-			return exactKey(n.o)
+			return sha1.Sum([]byte(exactKey(n.o)))
 		}
-		return canonKey(memView{n.ms}, n.o)
+		return sha1.Sum([]byte(canonKey(memView{n.ms}, n.o)))
 	}
-	seen := map[string]bool{keyOf(root): true}
+	seen := map[[20]byte]bool{keyOf(root): true}
 	reached := []map[string]bool{{canonKey(memView{ms0}, root.o): true}}
 	frontier := []mNode{root}
 	if !quiet {
@@ -736,7 +789,7 @@ func searchM(start string, depth int, thorough bool, exact bool, item *int, col 
 			for _, o := range menuM(n.o, w, thorough) {
 				if d == 0 && item != nil {
 					*item++
-					if !evid.Mine(*item) {
+					if !mine(*item) {
 						continue
 					}
 				}
@@ -751,7 +804,24 @@ func searchM(start string, depth int, thorough bool, exact bool, item *int, col 
 				path := append(append([]string(nil), n.path...), o.Name)
 				if vd.sig != "" {
 					if !quiet {
-						col.Violation(vd.sig, vd.what, replay{Lane: "M", Start: start, Ops: path})
+						what := vd.what
+						if !confirmed[vd.sig] && len(confirmed) < 2 && theT != nil {
+							// re-run the first case of a signature on a real git repository
+							confirmed[vd.sig] = true
+							gsig, err := confirmOnGit(theT, start, path)
+							switch {
+							case err != nil:
+								col.Fail("lane M finding could not be re-run on real git: " + err.Error())
+								return reached
+							case gsig != vd.sig:
+								col.Fail(fmt.Sprintf("lane M finding %s (start %s, ops %v) is not reproduced on real git (got %q): memstore and git disagree", vd.sig, start, path, gsig))
+								return reached
+							}
+							col.Inc("violations_confirmed_on_real_git")
+							col.Add("traces_validated_against_impl", int64(len(path)))
+							what += " [same operations on a real git repository give the same verdict]"
+						}
+						col.Violation(vd.sig, what, replay{Lane: "M", Start: start, Ops: path})
 					}
 					continue
 				}
@@ -762,7 +832,9 @@ func searchM(start string, depth int, thorough bool, exact bool, item *int, col 
 					}
 				}
 				nn := mNode{ms: ms, o: after, path: path}
-				level[canonKey(memView{ms}, after)] = true
+				if quiet {
+					level[canonKey(memView{ms}, after)] = true
+				}
 				k := keyOf(nn)
 				if seen[k] {
 					continue
@@ -774,7 +846,9 @@ func searchM(start string, depth int, thorough bool, exact bool, item *int, col 
 						col.Sample(map[string]any{"lane": "M", "start": start, "ops": path, "policy_entries": len(after.entriesFor(policyRef)), "log_len": len(after.Log)})
 					}
 				}
-				next = append(next, nn)
+				if len(path) < depth {
+					next = append(next, nn)
+				}
 			}
 		}
 		reached = append(reached, level)
@@ -790,6 +864,7 @@ func TestC12(t *testing.T) {
 			t.Fatal(err)
 		}
 	}()
+	theT = t
 	thorough := evid.Thorough()
 	depthM, depthG := 4, 3
 	if thorough {
@@ -824,12 +899,12 @@ func TestC12(t *testing.T) {
 	}
 
 	item := 0
-	// lane G first, inside its own time slice (40% of the worker's cap) so that
+	// lane G first, inside its own time slice (half of the worker's cap) so that
 	// neither lane can starve the other on a loaded machine
 	if os.Getenv("C12_SKIP_G") == "" {
 		var stop time.Time
 		if d, _ := strconv.Atoi(os.Getenv("VERIF_DEADLINE_S")); d > 0 {
-			stop = time.Now().Add(time.Duration(d) * time.Second * 4 / 10)
+			stop = time.Now().Add(time.Duration(d) * time.Second / 2)
 		}
 		searchG(t, depthG, thorough, &item, col, stop)
 	}
